@@ -4,6 +4,7 @@ import (
 	"fmt"
 	"go/token"
 	"go/types"
+	"strings"
 
 	"dtnverif/core"
 
@@ -340,6 +341,7 @@ func C11(p *core.Program, r *core.Report) {
 	// a failed Send must not leave its feedback channel registered: the receive loop would block on it
 	checkRegisteredChannelsRemoved(p, r)
 	checkTransferIDAllocation(p, r)
+	checkExchangeNoCyclicWait(p, r)
 	// "segments none larger than the negotiated size": the size the sender segments with is the negotiated one
 	checkSegmentMruChain(p, r)
 	r.Analysed["error_returning_functions_checked"] = checkErrorsNotSwallowedIn(p, r, "pkg/cla/tcpclv4", utilsPkg, msgsPkg, "pkg/cla/tcpclv4/internal/stages")
@@ -512,4 +514,61 @@ func checkTransferIDAllocation(p *core.Program, r *core.Report) {
 		})
 		r.Check(okID, "transfer-id/"+fname(send)+"/from-the-increment", "the ID a transfer is created with is the result of the atomic increment", p.Pos(c.Pos()), "", "the transfer's ID does not derive from atomic.AddUint64's result")
 	}
+}
+
+// checkExchangeNoCyclicWait: the established-session stage is the only goroutine that empties State.ExchangeMsgOut (and
+// writes to the wire); the transfer manager's handler is the only reader of State.ExchangeMsgIn and answers every
+// segment with a blocking send into ExchangeMsgOut. Both channels are bounded. If the stage blocks on a bare send into
+// ExchangeMsgIn, the two wait for each other as soon as both buffers are full: under load from both directions, or for
+// one bundle in many small segments, the session hangs and every Send times out. Every send of the stage into
+// ExchangeMsgIn is therefore a select case next to a receive from ExchangeMsgOut.
+func checkExchangeNoCyclicWait(p *core.Program, r *core.Report) {
+	stagesRel := "pkg/cla/tcpclv4/internal/stages"
+	isField := func(v ssa.Value, f string) bool {
+		ld, ok := core.Strip(v).(*ssa.UnOp)
+		return ok && core.IsField(ld.X, stagesRel, "State", f)
+	}
+	// premise: the manager answers with bare sends
+	h := p.Func(utilsPkg, "TransferManager", "handle")
+	nAns := 0
+	core.EachInstr(h, func(in ssa.Instruction) {
+		if s, ok := in.(*ssa.Send); ok && pathEndsWith(s.Chan, "msgOut") {
+			nAns++
+		}
+	})
+	r.Analysed["blocking_answers_of_the_transfer_manager"] = nAns
+	n := 0
+	for _, fn := range p.RepoFuncs() {
+		if fn.Pkg != p.Pkg(stagesRel) || fn.Blocks == nil {
+			continue
+		}
+		if rcv := fn.Signature.Recv(); rcv == nil || !strings.Contains(rcv.Type().String(), "SessEstablishedStage") {
+			continue
+		}
+		core.EachInstr(fn, func(in ssa.Instruction) {
+			switch x := in.(type) {
+			case *ssa.Send:
+				if isField(x.Chan, "ExchangeMsgIn") {
+					n++
+					r.Check(nAns == 0, "exchange/"+fname(fn)+"/no-cyclic-wait", "the stage hands an incoming message to the transfer manager only in a select that also takes the manager's outgoing messages (ExchangeMsgOut): neither side waits for the other with both bounded channels full", p.Pos(in.Pos()), "", "a bare blocking send into ExchangeMsgIn: while it blocks, nobody empties ExchangeMsgOut, on which the manager blocks acknowledging - the session hangs")
+				}
+			case *ssa.Select:
+				sendsIn, takesOut := false, false
+				for _, st := range x.States {
+					if st.Dir == types.SendOnly && isField(st.Chan, "ExchangeMsgIn") {
+						sendsIn = true
+					}
+					if st.Dir == types.RecvOnly && isField(st.Chan, "ExchangeMsgOut") {
+						takesOut = true
+					}
+				}
+				if sendsIn {
+					n++
+					r.Check(takesOut || nAns == 0, "exchange/"+fname(fn)+"/no-cyclic-wait", "the stage hands an incoming message to the transfer manager only in a select that also takes the manager's outgoing messages (ExchangeMsgOut): neither side waits for the other with both bounded channels full", p.Pos(in.Pos()), "", "the select that sends into ExchangeMsgIn has no receive from ExchangeMsgOut")
+				}
+			}
+		})
+	}
+	r.Min("hand-overs of incoming messages to the transfer manager", 1)
+	r.Count("hand-overs of incoming messages to the transfer manager", n)
 }
